@@ -28,6 +28,15 @@ PROBES = {"C06": ["inject:pypose-frame", "inject:user-frame", "inject:torch-fram
 
 # identity snapshot of the three patched attributes, taken at import (before any retain_ltype ran in this process)
 ORIG = {"make_dual": _fa.make_dual, "_wrap_tensor_for_grad": _et._wrap_tensor_for_grad, "_add_batch_dim": _vm._add_batch_dim}
+import types as _types
+import torch._functorch.apis as _apis
+import torch._functorch.functional_call as _fcall
+import torch.autograd.functional as _afunc
+_WATCHED = {"torch.autograd.forward_ad": _fa, "torch._functorch.eager_transforms": _et, "torch._functorch.vmap": _vm,
+            "torch._functorch.apis": _apis, "torch._functorch.functional_call": _fcall, "torch.autograd.functional": _afunc,
+            "torch.func": torch.func}
+ALL_ORIG = {(mn, k): v for mn, m in _WATCHED.items() for k, v in vars(m).items()
+            if isinstance(v, (_types.FunctionType, _types.BuiltinFunctionType, type))}
 REPO_PP = os.path.join(os.path.realpath(env.REPO), "pypose") + os.sep
 HERE = os.path.realpath(__file__)
 
@@ -71,6 +80,11 @@ def user_log(X):
     return X.Log().tensor()
 
 
+def user_log_aux(X):
+    BOMB.tick()
+    return X.Log().tensor(), X.Inv()
+
+
 def user_act(X, p):
     BOMB.tick()
     return X.Act(p)
@@ -105,7 +119,7 @@ def _region_body(fn, *a):
 # generation
 
 OPS = ("jacrev_log", "jacrev_act0", "jacrev_act1", "jacrev_exp", "jacrev_chain", "with_vmap", "with_jacfwd",
-       "with_jacrev", "nested_vmap", "reuse", "reuse_inside", "plain", "api", "api2")
+       "with_jacrev", "nested_vmap", "reuse", "reuse_inside", "jacrev_aux", "jacrev_chunk", "plain", "api", "api2")
 
 
 def generate(seed, tier, prop="C06"):
@@ -230,9 +244,22 @@ class Injector:
 # ---------------------------------------------------------------------------------------------
 
 def _patch_state():
+    """Names of PyTorch internals that are not the objects recorded at import: the three pypose documents, and any
+    other function of the watched torch modules (a patch of a fourth internal is patching of PyTorch internals too)."""
     cur = {"make_dual": _fa.make_dual, "_wrap_tensor_for_grad": _et._wrap_tensor_for_grad,
            "_add_batch_dim": _vm._add_batch_dim}
-    return [k for k in sorted(ORIG) if cur[k] is not ORIG[k]]
+    left = [k for k in sorted(ORIG) if cur[k] is not ORIG[k]]
+    for (mn, k), v in ALL_ORIG.items():
+        if k not in ORIG and vars(_WATCHED[mn]).get(k) is not v:
+            left.append("%s.%s" % (mn, k))
+    return sorted(left)
+
+
+def _restore_all():
+    _fa.make_dual, _et._wrap_tensor_for_grad, _vm._add_batch_dim = ORIG["make_dual"], ORIG["_wrap_tensor_for_grad"], ORIG["_add_batch_dim"]
+    for (mn, k), v in ALL_ORIG.items():
+        if vars(_WATCHED[mn]).get(k) is not v:
+            setattr(_WATCHED[mn], k, v)
 
 
 def _health():
@@ -306,6 +333,10 @@ def _make_thunk(o, fam, n, seed, reuse_cache):
         return lambda: pp.func.jacrev(user_act, argnums=1)(X, p), args
     if op == "jacrev_exp":
         return lambda: pp.func.jacrev(user_exp)(x), args
+    if op == "jacrev_aux":
+        return lambda: pp.func.jacrev(user_log_aux, has_aux=True)(X), args
+    if op == "jacrev_chunk":
+        return lambda: pp.func.jacrev(user_log, chunk_size=2)(X), args
     if op == "jacrev_chain":
         return lambda: pp.func.jacrev(user_chain, argnums=(0, 1))(X, Y), args
     if op == "with_vmap":
@@ -442,7 +473,19 @@ def _api_monitor2(seed, i, fam, n, out):
     Mspd = A[0] @ A[0].mT + 3 * torch.eye(3, dtype=dt); rhs = g("rhs", (3, 1)); x0 = torch.zeros(3, 1, dtype=dt)
     vz = v.clone(); vz[0] = 0.0
     Mrect = g("Mrect", (5, 3)); rhs5 = g("rhs5", (5, 1))
+    s45 = 0.5 ** 0.5
+    gim = pp.LieTensor(torch.tensor([[0.0, -s45, 0.0, -s45], [0.0, s45, 0.0, -s45], [0.0, s45, 0.0, s45]], dtype=dt), ltype=pp.SO3_type)
+    gimT = pp.LieTensor(torch.cat([torch.zeros(3, 3, dtype=dt), gim.tensor()], dim=-1), ltype=pp.SE3_type)
+    class _Lin(pp.module.NLS):
+        def state_transition(self, x, u, t=None): return 0.9 * x + u
+        def observation(self, x, u, t=None): return x
+    Ppsd = torch.diag(torch.tensor([1.0, 0.0, 0.5], dtype=dt)); xk = g("xk", (3,)); Qk = torch.eye(3, dtype=dt) * 0.1
+    def ukf_call():
+        return pp.module.UKF(_Lin(), Qk, Qk)(xk, xk * 1.1, xk * 0.0, Ppsd)
     calls = [
+        ("euler:gimbal-lock", lambda: gim.euler(), [gim]), ("euler:gimbal-lock:SE3", lambda: gimT.euler(), [gimT]),
+        ("UKF:semidefinite-prior", ukf_call, [Ppsd, xk, Qk]),
+        ("EKF:step", lambda: pp.module.EKF(_Lin(), Qk, Qk)(xk, xk * 1.1, xk * 0.0, Ppsd + Qk), [Ppsd, xk, Qk]),
         ("homo2cart:w=0", lambda: pp.homo2cart(hinf), [hinf]),
         ("CG", lambda: pp.optim.solver.CG()(Mspd, rhs), [Mspd, rhs]),
         ("CG:x0=zeros", lambda: pp.optim.solver.CG()(Mspd, rhs, x=x0), [Mspd, rhs, x0]),
@@ -480,8 +523,8 @@ def _api_monitor2(seed, i, fam, n, out):
         try:
             fn()
         except Exception:
-            out.probe("monitor2:call-failed:" + name)
-            continue            # whether the call works at all is other properties' business
+            out.probe("monitor2:call-failed:" + name)   # whether the call works at all is other properties' business;
+                                                        # its arguments must be untouched either way
         out.probe("monitor:api-call")
         for b, t in zip(before, args):
             if not torch.equal(b, t.detach()):
@@ -494,7 +537,7 @@ def _check_after(out, o, what):
     left = _patch_state()
     if left:
         # put things back so that the rest of this process is not poisoned by the finding itself
-        _fa.make_dual, _et._wrap_tensor_for_grad, _vm._add_batch_dim = ORIG["make_dual"], ORIG["_wrap_tensor_for_grad"], ORIG["_add_batch_dim"]
+        _restore_all()
         raise Violation("C06.patches", "%s: PyTorch internals still patched after the region was left: %s" % (what, left),
                         o["id"], "patches:" + (o.get("fault") or {}).get("kind", "none"))
     h = _health()
